@@ -4,56 +4,96 @@ import PySMT.Proofs.C09Round
 import PySMT.Proofs.C09DagRound
 import PySMT.Proofs.C09ScriptRound
 import PySMT.Proofs.C07Example
+import PySMT.Proofs.C09Extra
+import PySMT.Proofs.C09Logic
+import PySMT.Proofs.C09ScriptMgr
+import PySMT.Proofs.C09Cmds2
 /-!
 # C09 — print → parse round trips: the property theorems
 
-Models: the printers `Impl/Printer.lean` (`toSexp`, `toSexpDag`; C07) and the parser `Impl/Parser.lean` (`readTerm`; C08), both
-over `Spec/Sexp.lean`. On every run the *composition* `readTerm (declarations of t) (toSexp t)` / `(toSexpDag t)` is compared,
-literally, with what `SmtLibParser` makes of `to_smtlib(f)` for ≈ 1 600 generated formulas of every sort (K, driver request
-`rt`), and the implementation itself is checked against the statement of the property (S): identity of the object for both
-printers, equivalent command lists for re-serialised scripts, same type/meaning/serialisation-up-to-grouping for the
-human-readable format.
+Models: the printers `Impl/Printer.lean` (`toSexp`, `toSexpDag`, `scriptOfFormula`, `scriptOfCmds`; C07) and the parser
+`Impl/Parser.lean` (`readTerm`, `cmd`, `script`; C08), both over `Spec/Sexp.lean`. On every run the *composition*
+`readTerm (declarations of t) (toSexp t)` / `(toSexpDag t)` is compared, literally, with what `SmtLibParser` makes of
+`to_smtlib(f)` for ≈ 1 600 generated formulas of every sort (K, driver request `rt`), and the implementation itself is
+checked against the statement of the property (S): identity of the object for both printers, equivalent command lists for
+re-serialised scripts, same type/meaning/serialisation-up-to-grouping for the human-readable format (Props/C09HR.lean).
+
+## What these theorems are about, and what they are not about
+
+* **S-expressions, not text**: the printer model produces an S-expression, the parser model consumes it. pySMT's
+  `Tokenizer` is not modelled; that the rendered text is split into these tokens is tested (K), with ONE exception that
+  is now a hypothesis of every theorem: a symbol named `(` or `)` is printed as `|(|` and pySMT's tokenizer hands the
+  parser a parenthesis (known finding P03). `Agree.pnameOK` — part of `envOK`, `Corr.names`, `parseOK`, `nameOK1` —
+  refuses these two names (`p03_excluded`); before this guard the theorems were true of the model and false of the code
+  inside their own hypotheses.
+* **Same evaluator on both sides**: wherever "same meaning" is stated (`unfoldAV_meaning`, `parse_print_id_meaning`),
+  it is `Core/Eval.lean` on both sides; the round-trip theorems themselves state EQUALITY OF TERMS and do not depend on it.
+* **Sentence 1 of the property** ("a formula printed and parsed back in the same environment is the very same object"):
+  `parse_print_id_*`, `parse_printDag_id_partial`, `parse_print_id_same_object`; "same environment" = any parser
+  environment that corresponds to the declarations (`Corr`) and whose formula manager holds only `ρ`-symbols — for
+  the script theorems now ANY such manager (`script_print_parse_mgr_partial`), not only the empty one.
+* **Sentence 2** ("a parsed script made of serialisable commands re-serialises to … an equivalent command list"):
+  `script_cmds_roundtrip_partial` is print → parse of a command LIST over set-logic, declare-sort, declare-fun,
+  declare-const, assert, push, pop, check-sat — applied to the command list a first parse returned, it is the second
+  sentence for these eight kinds. NOT covered by a theorem (K/S only): `define-fun` (the round trip up to fresh
+  parameter names; `Corr.nodefs` forbids definitions), `define-sort`, `set-info`/`set-option`, `get-value`,
+  `check-sat-assuming`, OMT commands, `:named`.
+* **Array values** come back as the store chain they are printed as (`unfoldAV t`): `unfoldAV_meaning` restates C07's
+  `eval_unfoldAVw` (same value under every interpretation, for array values with constant, pairwise different keys:
+  `avGuard`), `unfoldAV_id`: without an assigned array value `unfoldAV t = t`, so the conclusion IS "the very same object".
 
 ## What is proved
 
-* `parse_print_id_partial` — **tree printer, compound terms**: for every formula `t` that satisfies C07's `Printable env [] t`
-  (well-typed with canonical payloads, speakable unambiguous names, plain declared sorts, none of F10/F11/F44/F45/F46) and
-  - `mgrNormal t`: `t` is in the formula manager's normal form (no `Not(Not x)`, no `ToReal` of an integer constant, no
-    `Div` by a non-zero constant: what `FormulaManager` returns — the property speaks about formulas of the manager),
-  - `parseOK env ρ t`: every bound variable has a name the parser cannot take for a literal (F16b) or a declared sort, and
-    is the manager's symbol `ρ` of that name (one name, one sort),
+* `parse_print_id_partial` — **tree printer**: for every formula `t` with C07's `Printable env [] t` (well-typed with
+  canonical payloads, speakable unambiguous names, plain declared sorts, none of F10/F11/F44/F45/F46) and
+  - `mgrNormal t`: `t` is in the formula manager's normal form (no `Not(Not x)`, no `ToReal` of a constant, no `Div` by a
+    non-zero constant: what `FormulaManager` returns),
+  - `parseOK env ρ t`: every bound variable has a name the parser cannot take for a literal (F16b), a parenthesis (P03) or
+    a declared sort, and is the manager's symbol `ρ` of that name (one name, one sort),
 
-  in every parser environment `Γ` that corresponds to `env` (`Agree.Corr env [] Γ`, stated explicitly in
-  `Proofs/C08Agree0.lean`: every declared constant/function/sort of `env` is bound accordingly, `true`/`false` keep their
-  meaning, no bound name is spelled like a literal, no `define-fun`, the logic flag agrees; `Agree.penvOf env` is such an
-  environment whenever `Agree.envOK env`, theorem `penv_corresponds`) and whose formula manager knows only symbols of `ρ`:
-  `readTerm Γ (toSexp t) = ok (unfoldAV t)` — the very same formula, array values as the store chains they are printed as.
-  Operator families covered: Boolean connectives, `ite`, `=`, arithmetic and comparisons, `to_real`, `/` and the constants
-  (negative and rational ones, printed as `(- c)`, `(/ n d)`), all bit-vector operators incl. `extract`, `zero_extend`,
-  `sign_extend`, `rotate_left`, `rotate_right`, `concat`, `bvcomp`, `bv2nat`, the string operators, `select`/`store`/constant arrays/array values,
-  applications of declared functions, `forall`/`exists`.
-  `_partial` only because the exclusions of `Printable` (F10 integer division, F11 `str.to.int`/`int.to.str`, F44 `pow`,
-  F45, F46, parametric sorts) are inherited: every operator family the printer can print for a `Printable` formula is
-  covered.
-* `parse_print_id_penv_partial` — the same in the concrete environment `penvOf env`.
-* `parse_print_id_state_partial` — … and the formula manager is left within `ρ` (no fresh symbol for a bound variable).
-* `parse_printDag_id_partial` — **DAG printer**, quantifier-free formulas (C07's `read_toSexpDag` covers those): the
-  parser's reading of `toSexpDag t` is `unfoldAVw false t` (array values as store chains in argument order). Additional
-  hypothesis `defFree env` (no declared sort is named `.def_k`). `_partial`: formulas with quantifiers (nested printers)
-  are covered by K/S only.
+  in every parser environment `Γ` with `Agree.Corr env [] Γ` (Proofs/C08Agree0.lean: every declared constant/function/
+  sort of `env` is bound accordingly, `true`/`false` keep their meaning, no bound name is spelled like a literal, **no
+  `define-fun`**, a declared function with parameters is not named like a parser token, the numeral flag agrees with the
+  logic) whose formula manager knows only symbols of `ρ`: `readTerm Γ (toSexp t) = ok (unfoldAV t)`.
+  Operator families covered: Boolean connectives, `ite`, `=`, arithmetic and comparisons, `to_real`, `/` and the
+  constants (negative and rational ones), all bit-vector operators incl. `extract`, `zero_extend`, `sign_extend`,
+  `rotate_left`, `rotate_right`, `concat`, `bvcomp`, `bv2nat`, the string operators, `select`/`store`/constant
+  arrays/array values, applications of declared functions, `forall`/`exists`. `_partial`: the exclusions of `Printable`.
+* `parse_print_id_penv_partial`, `parse_print_id_state_partial` — in the concrete environment `penvOf env` (its formula
+  manager is EMPTY: an artificial state; the `_mgr` script theorems below are the realistic ones); the manager stays within `ρ`.
+* `parse_printDag_id_partial` — **DAG printer**, QUANTIFIER-FREE formulas only (`noQuant`; pySMT's default printer on a
+  quantified formula is covered by K/S only), additional hypothesis `defFree env` (no declared sort is named `.def_k`):
+  the reading of `toSexpDag t` is `unfoldAVw false t` (array values as store chains in ARGUMENT order; the tree printer
+  sorts the keys by `str`).
+* `parse_print_id_same_object`, `parse_printDag_id_same_object`, `parse_print_id_meaning` — the §4.3 corollaries.
 * `script_print_parse_partial`, `script_printDag_parse_partial` — **the script of a formula**
-  (`smtlibscript_from_formula(f).serialize(daggify=False|True)`, model `scriptOfFormula`): run from the parser's initial
-  state, the whole script `(set-logic L) (declare-sort …)* (declare-fun …)* (assert …) (check-sat)` is accepted by the
-  parser model (`Parser.script`) and yields exactly the command list `Agree.scriptCommands`: the declarations of the
-  formula's sorts and free symbols, the assertion of the very same formula, `check-sat`. Hypotheses: C07's `ScriptOK logic
-  t` (the hypotheses of `decls_before_use`), `logicOK logic` (the parser's arithmetic flag for the logic agrees with the
-  standard's reading of numerals), `envOK (scriptEnv logic t)`, `ρ` contains the free symbols, `parseOK`, `mgrNormal`; for
-  the DAG form also `noQuant t` and `defFree`. `_partial`: scripts of one formula only (no `define-fun`, `push`/`pop`,
-  several assertions, OMT commands) — general re-serialised scripts are covered by K/S only.
-* `parse_print_id_literals_partial` — Int/Bool/String constants, under the weaker hypotheses of the first round (kept).
-* `printed_tokens_std` — every operator token of the parser table is the constructor the standard prescribes.
+  (`smtlibscript_from_formula(f).serialize(daggify=False|True)`, model `scriptOfFormula`) from the parser's initial state:
+  exactly the command list `Agree.scriptCommands`. The declarations are listed in the order `t.fv.eraseDups` (first
+  occurrence); the CODE takes them from a frozenset (an arbitrary order): the K comparison sorts declarations, the theorem
+  is about the model's order.
+  `script_print_parse_mgr_partial`, `script_printDag_parse_mgr_partial` — the same from ANY formula manager `σ0` that
+  knows only `ρ`-symbols and declares the sorts of `t` with the same arity (`SortsCompat`) — e.g. the manager that built
+  `t` (`Agree.script_print_parse_same_env`); the hypotheses cannot be dropped (`Agree.mkSymbol_clash`,
+  `Agree.cmd_declareSort_clash`).
+* **Logics.** `logicOK logic` (the parser's numeral flag for the logic agrees with the standard's reading of numerals) is
+  FALSE for QF_BV, QF_UF, QF_AX, QF_ABV, QF_AUFBV, BV, BOOL (`logicOK_false_examples`) — the logics
+  `smtlibscript_from_formula` computes for pure bit-vector/UF/array formulas. `script_print_parse_numfree_partial`,
+  `script_printDag_parse_numfree_partial` replace it by `logicOK logic || numeralFree t` (no integer constant in `t`);
+  `qf_bv_instance`: the emitted QF_BV script of `(bvult v (bvadd v (_ bv1 8)))` round-trips.
+* `script_cmds_roundtrip_partial`, `script_cmds_roundtrip_mgr_partial` — **command lists** (see "Sentence 2" above), both
+  printers; hypotheses: C07's `cmdsOK` (every command legal where it stands, declarations before use) and the decidable
+  `Agree.pcmdsOK` (names `nameOK1`; a function is not named like a sort declared earlier in the script, popped or not,
+  and vice versa: P01; one name — one symbol/arity, so re-declaring a popped name must repeat the declaration; `logicOK`;
+  assertions `parseOK`, `mgrNormal`, for the DAG printer quantifier-free). Includes push/pop with re-declaration.
+* `parse_print_id_literals_partial` — Int/Bool/String constants in integer logics, under the weaker hypotheses of the
+  first round (kept). `printed_tokens_std` — the table check shared with C08 (names of handlers, see Props/C08.lean).
 
-Still K/S only: general re-serialised scripts (arbitrary command lists), the human-readable format, DAG with quantifiers.
+Non-vacuity beyond `t1`: `Agree.Wit.hyps_tQ` (nested quantifiers with shadowing), `hyps_tA` (array value with two
+assignments, tree and DAG order differ), `hyps_tB` (extract, rotate), `hyps_tR` (negative rational and integer constants),
+`Agree.BVEx.hyps_tBV` (QF_BV), `Agree.ExU` (declared sort, non-empty manager), `Agree.CmdsEx` (13 commands with push/pop).
+
+Still K/S only: the commands listed under "Sentence 2", the human-readable text level, DAG with quantifiers, the
+tokenizer.
 -/
 namespace PySMT.Props.C09
 open PySMT PySMT.Parser PySMT.Printer PySMT.Parser.Agree
@@ -102,6 +142,136 @@ theorem script_printDag_parse_partial (logic : String) (ρ : List (String × Sym
           ++ t.fv.eraseDups.map (Command.declare "declare-fun")
           ++ [Command.assert (unfoldAVw false t), Command.plain "check-sat" []]) :=
   Agree.script_print_parse_dag logic ρ t hs hl henv hρ hdf hq hQ hN
+
+/-! ## any formula manager (the "same environment") -/
+
+/-- **script of a formula, tree form, from any formula manager** `σ0` that knows only `ρ`-symbols and compatible sorts. -/
+theorem script_print_parse_mgr_partial (logic : String) (ρ : List (String × Sym)) (t : Term) (σ0 : MgrSt)
+    (hσ : MgrLe σ0 ρ) (hsorts : SortsCompat σ0 t)
+    (hs : ScriptOK logic t = true) (hl : logicOK logic = true) (henv : envOK (scriptEnv logic t) = true)
+    (hρ : ∀ s ∈ t.fv.eraseDups, ρ.lookup s.name = some s)
+    (hQ : parseOK (scriptEnv logic t) ρ t = true) (hN : mgrNormal t = true) :
+    script { PEnv.init with mgr := σ0 } (scriptOfFormula logic false t) = .ok (scriptCommands logic t) :=
+  Agree.script_print_parse_mgr logic ρ t σ0 hσ hsorts hs hl henv hρ hQ hN
+
+/-- **… DAG form** (quantifier-free formulas). -/
+theorem script_printDag_parse_mgr_partial (logic : String) (ρ : List (String × Sym)) (t : Term) (σ0 : MgrSt)
+    (hσ : MgrLe σ0 ρ) (hsorts : SortsCompat σ0 t)
+    (hs : ScriptOK logic t = true) (hl : logicOK logic = true) (henv : envOK (scriptEnv logic t) = true)
+    (hρ : ∀ s ∈ t.fv.eraseDups, ρ.lookup s.name = some s) (hdf : defFree (scriptEnv logic t))
+    (hq : noQuant t = true) (hQ : parseOK (scriptEnv logic t) ρ t = true) (hN : mgrNormal t = true) :
+    script { PEnv.init with mgr := σ0 } (scriptOfFormula logic true t)
+      = .ok ([Command.setLogic ((logicEntry logic).map (·.1))]
+          ++ (sortDecls t).map (fun d => Command.declareSort d.1 d.2)
+          ++ t.fv.eraseDups.map (Command.declare "declare-fun")
+          ++ [Command.assert (unfoldAVw false t), Command.plain "check-sat" []]) :=
+  Agree.script_print_parse_dag_mgr logic ρ t σ0 hσ hsorts hs hl henv hρ hdf hq hQ hN
+
+/-- the hypotheses on the manager are satisfiable by a manager with another symbol, a fresh counter and a sort -/
+example : MgrLe Agree.σEx Agree.ρEx ∧ SortsCompat Agree.σEx C07.t1 ∧
+    (∀ s ∈ C07.t1.fv.eraseDups, Agree.ρEx.lookup s.name = some s) ∧
+    parseOK (scriptEnv "QF_LIA" C07.t1) Agree.ρEx C07.t1 = true := Agree.example_mgr_hyps
+
+/-! ## logics without arithmetic -/
+
+/-- `logicOK` fails for exactly the logics pySMT computes for pure bit-vector / UF / array formulas -/
+theorem logicOK_false_examples :
+    logicOK "QF_BV" = false ∧ logicOK "QF_UF" = false ∧ logicOK "QF_AUFBV" = false ∧ logicOK "BV" = false ∧
+    logicOK "QF_AX" = false ∧ logicOK "QF_ABV" = false :=
+  Agree.logicOK_false_examples
+
+/-- **script of a formula, any logic, numeral-free formulas** (`numeralFree t`: no integer constant occurs in `t`). -/
+theorem script_print_parse_numfree_partial (logic : String) (ρ : List (String × Sym)) (t : Term)
+    (hs : ScriptOK logic t = true) (hl : (logicOK logic || numeralFree t) = true)
+    (henv : envOK (scriptEnv logic t) = true) (hρ : ∀ s ∈ t.fv.eraseDups, ρ.lookup s.name = some s)
+    (hQ : parseOK (scriptEnv logic t) ρ t = true) (hN : mgrNormal t = true) :
+    script PEnv.init (scriptOfFormula logic false t) = .ok (scriptCommands logic t) :=
+  Agree.script_print_parse_numfree logic ρ t hs hl henv hρ hQ hN
+
+/-- **… DAG form.** -/
+theorem script_printDag_parse_numfree_partial (logic : String) (ρ : List (String × Sym)) (t : Term)
+    (hs : ScriptOK logic t = true) (hl : (logicOK logic || numeralFree t) = true)
+    (henv : envOK (scriptEnv logic t) = true) (hρ : ∀ s ∈ t.fv.eraseDups, ρ.lookup s.name = some s)
+    (hdf : defFree (scriptEnv logic t)) (hq : noQuant t = true)
+    (hQ : parseOK (scriptEnv logic t) ρ t = true) (hN : mgrNormal t = true) :
+    script PEnv.init (scriptOfFormula logic true t)
+      = .ok ([Command.setLogic ((logicEntry logic).map (·.1))]
+          ++ (sortDecls t).map (fun d => Command.declareSort d.1 d.2)
+          ++ t.fv.eraseDups.map (Command.declare "declare-fun")
+          ++ [Command.assert (unfoldAVw false t), Command.plain "check-sat" []]) :=
+  Agree.script_print_parse_dag_numfree logic ρ t hs hl henv hρ hdf hq hQ hN
+
+/-- **A QF_BV instance**: the script pySMT emits for `(bvult v (bvadd v (_ bv1 8)))`, `v : BV 8`, is read back as
+`set-logic QF_BV`, `declare-fun v`, the assertion of the very same formula, `check-sat` — although `logicOK "QF_BV"` is false. -/
+theorem qf_bv_instance :
+    logicOK "QF_BV" = false ∧
+    script PEnv.init (scriptOfFormula "QF_BV" false Agree.BVEx.tBV)
+      = .ok [Command.setLogic (some "QF_BV"), Command.declare "declare-fun" Agree.BVEx.v,
+             Command.assert (unfoldAV Agree.BVEx.tBV), Command.plain "check-sat" []] := by
+  obtain ⟨hs, hlo, hl, henv, hρ, _, _, hQ, hN⟩ := Agree.BVEx.hyps_tBV
+  exact ⟨hlo, by
+    rw [← Agree.BVEx.scriptCommands_tBV]
+    exact Agree.script_print_parse_numfree "QF_BV" [("v", Agree.BVEx.v)] Agree.BVEx.tBV hs hl henv hρ hQ hN⟩
+
+/-! ## command lists (§4.2) -/
+
+/-- **Print → parse of a command list.** A list of set-logic / declare-sort / declare-fun / declare-const / assert /
+push / pop / check-sat commands, serialised by `SmtLibScript.serialize(daggify)` (model `scriptOfCmds dag`), is read by
+the parser model from its initial state as the same command list (`toCommand`: an asserted formula comes back with array
+values as store chains). `_partial`: the other serialisable commands (`define-fun`, `define-sort`, `set-info`,
+`get-value`, `check-sat-assuming`, OMT) are not in `Printer.Cmd`. -/
+theorem script_cmds_roundtrip_partial (dag : Bool) (cmds : List Printer.Cmd) (ρ : List (String × Sym))
+    (h : cmdsOK dag Std.StdState.init cmds = true) (h2 : pcmdsOK dag ρ cmds = true) :
+    script PEnv.init (scriptOfCmds dag cmds) = .ok (cmds.map (toCommand dag)) :=
+  Agree.script_cmds_roundtrip dag cmds ρ h h2
+
+/-- **… from any formula manager** holding `ρ`-symbols and sorts of the `κ`-arities. -/
+theorem script_cmds_roundtrip_mgr_partial (dag : Bool) (cmds : List Printer.Cmd) (ρ : List (String × Sym))
+    (κ : List (String × Nat)) (σ₀ : MgrSt) (hσ : MgrLe σ₀ ρ) (hκ : ∀ e ∈ σ₀.sorts, κ.lookup e.1 = some e.2)
+    (h : cmdsOK dag Std.StdState.init cmds = true) (h2 : pcmdsFrom dag ρ κ Std.StdState.init [] [] cmds = true) :
+    script { PEnv.init with mgr := σ₀ } (scriptOfCmds dag cmds) = .ok (cmds.map (toCommand dag)) :=
+  Agree.script_cmds_roundtrip_mgr dag cmds ρ κ σ₀ hσ hκ h h2
+
+/-- … and afterwards the parser's environment corresponds to the standard's final environment -/
+theorem script_cmds_final_corr (dag : Bool) (cmds : List Printer.Cmd) (ρ : List (String × Sym))
+    (h : cmdsOK dag Std.StdState.init cmds = true) (h2 : pcmdsOK dag ρ cmds = true) :
+    Std.runStd (scriptOfCmds dag cmds) = .ok (cmdsRun dag Std.StdState.init cmds) ∧
+    ∃ Γ', envAfter PEnv.init (scriptOfCmds dag cmds) = .ok Γ' ∧ Corr (cmdsRun dag Std.StdState.init cmds).env [] Γ' :=
+  Agree.script_cmds_final_corr dag cmds ρ h h2
+
+/-! ## array values (§4.3) -/
+
+/-- the store chain an array value is printed as has the value of the array value (restates C07's `eval_unfoldAVw`) -/
+theorem unfoldAV_meaning (t : Term) (h : avGuard t = true) : ∀ I, eval I (unfoldAV t) = eval I t :=
+  Agree.unfoldAV_meaning t h
+
+/-- without an array value that has assignments nothing is unfolded -/
+theorem unfoldAV_id (t : Term) (h : noAssignedAV t = true) : unfoldAV t = t :=
+  Agree.unfoldAV_id t h
+
+/-- **the very same object** -/
+theorem parse_print_id_same_object (env : Std.SEnv) (ρ : List (String × Sym)) (Γ : PEnv) (hc : Corr env [] Γ)
+    (hm : MgrLe Γ.mgr ρ) (t : Term) (hP : Printable env [] t = true) (hQ : parseOK env ρ t = true)
+    (hN : mgrNormal t = true) (hA : noAssignedAV t = true) : readTerm Γ (toSexp t) = .ok t :=
+  Agree.parse_print_id_same_object env ρ Γ hc hm t hP hQ hN hA
+
+/-- … DAG printer -/
+theorem parse_printDag_id_same_object (env : Std.SEnv) (ρ : List (String × Sym)) (Γ : PEnv) (hc : Corr env [] Γ)
+    (hm : MgrLe Γ.mgr ρ) (hdf : defFree env) (t : Term) (hP : Printable env [] t = true) (hq : noQuant t = true)
+    (hQ : parseOK env ρ t = true) (hN : mgrNormal t = true) (hA : noAssignedAV t = true) :
+    readTerm Γ (toSexpDag t) = .ok t :=
+  Agree.parse_printDag_id_same_object env ρ Γ hc hm hdf t hP hq hQ hN hA
+
+/-- **an equivalent formula** when array values with assignments occur -/
+theorem parse_print_id_meaning (env : Std.SEnv) (ρ : List (String × Sym)) (Γ : PEnv) (hc : Corr env [] Γ)
+    (hm : MgrLe Γ.mgr ρ) (t : Term) (hP : Printable env [] t = true) (hQ : parseOK env ρ t = true)
+    (hN : mgrNormal t = true) (hG : avGuard t = true) :
+    ∃ t', readTerm Γ (toSexp t) = .ok t' ∧ ∀ I, eval I t' = eval I t :=
+  Agree.parse_print_id_meaning env ρ Γ hc hm t hP hQ hN hG
+
+/-- P03 is excluded by the hypotheses: a symbol named `(` or `)` is not `pnameOK`, an environment declaring it is not `envOK` -/
+theorem p03_excluded : pnameOK "(" = false ∧ pnameOK ")" = false ∧ pnameOK "(x" = true ∧
+    envOK { funs := [Sym.var "(" .bool] } = false := by decide
 
 /-- the parser environment built from the declarations of `env` corresponds to `env` -/
 theorem penv_corresponds (env : Std.SEnv) (h : envOK env = true) (ρ : List (String × Sym)) :
@@ -173,5 +343,21 @@ example : NumeralsFree PEnv.init := by
   have h2 : natStr k ≠ "false" := by
     intro h; have := pyFraction_natStr k; rw [h, hf] at this; cases this
   simp [PEnv.init, lookup, Ne.symm h1, Ne.symm h2]
+
+/-! ### witnesses beyond `t1` (Proofs/C09Extra.lean, C09Logic.lean, C09Cmds2.lean) -/
+
+/-- nested quantifiers with shadowing: `forall x. (x <= y) ∨ exists x. x = y` -/
+example : readTerm (penvOf Agree.Wit.envW) (toSexp Agree.Wit.tQ) = .ok Agree.Wit.tQ := by
+  obtain ⟨henv, hP, hQ, hN, hA⟩ := Agree.Wit.hyps_tQ
+  exact Agree.parse_print_id_penv_same_object Agree.Wit.envW henv Agree.Wit.ρW Agree.Wit.tQ hP hQ hN hA
+
+/-- an array value with two assignments: not `noAssignedAV`, but `avGuard` -/
+example : noAssignedAV Agree.Wit.tA = false ∧ avGuard Agree.Wit.tA = true :=
+  ⟨Agree.Wit.noAV_tA, Agree.Wit.hyps_tA.2.2.2.2.2.2⟩
+
+/-- a command list with push/pop and re-declaration satisfies both hypotheses of `script_cmds_roundtrip_partial` -/
+example (dag : Bool) : cmdsOK dag Std.StdState.init Agree.CmdsEx.cmds = true ∧
+    pcmdsOK dag Agree.CmdsEx.ρ Agree.CmdsEx.cmds = true :=
+  ⟨Agree.CmdsEx.cmdsOK_ex dag, Agree.CmdsEx.pcmdsOK_ex dag⟩
 
 end PySMT.Props.C09
